@@ -298,6 +298,17 @@ def run(ctx):
     fw = [l for l in failing_walks(ctx) if "ab" in l.split(" ")[5]]
     ctx.compare("codesep-failing-walks", fw, ctx.harness_sharded(fw), ctx.driver_sharded(fw, "model"), ctx.driver_sharded(fw, "spec"), observable=R.canon,
                 nontrivial=lambda c, im: "!" in im.split(" ")[0])
+    # which digest an input is verified with is decided by that input (its own witness, its own output type), not by the other inputs of the
+    # transaction: signed spends of every ECDSA kind as the only input and among inputs of which others carry a witness / carry none
+    from . import c03 as _c03
+    mixed = []
+    for kind in S.KINDS:
+        if kind.startswith("p2tr"): continue
+        for ht in ((1, 0x83) if quick else (1, 2, 3, 0x81, 0x82, 0x83)):
+            for opts in ({"n_in": 1}, {"n_in": 3, "other_witness": True}, {"n_in": 3, "other_witness": False}, {"n_in": 2, "other_witness": True, "idx": 0}):
+                s_ = S.build(rnd, kind, dict(opts, hashtype=ht))
+                mixed.append((S.spend_line(s_.tx, s_.txin, R.STD), {"kind": kind, "label": "mixed-tx" if opts.get("other_witness") else "plain-tx", "built_valid": s_.valid, "flags": R.STD}))
+    _c03.verdict_compare(ctx, "signed-spends", mixed)
     # tapscript
     tcases = tap_cases(rnd, quick)
     tl = [c[0] for c in tcases]
